@@ -219,3 +219,40 @@ for variant, fst in (('', TSet(TKey)), ('#list', KeyList)):
                                        l.v.predictions.t == l.entry.predictions.t),
            }),
        ])
+
+
+# ---- TreeStorage.update ----------------------------------------------------------------------------------------------
+def without(x, f):
+    """the instance x without feature f (x_i = {**x}; x_i.pop(f))"""
+    return InstT.mk(z3.Store(InstT.dom(x), f, False), z3.Store(InstT.val(x), f, InstT.v.default()))
+
+
+def _tree_root(s, f):
+    return ObjView(sym.SObj('RiverTree', term=s._storage_x.val[f]))._root
+
+
+def has_newest(s, f, x):
+    """feature f's reservoir of the leaf that x (without f) is routed to in f's CURRENT tree exists and contains the complete x"""
+    leaf = PATH(_tree_root(s, f), without(x, f))
+    R = ObjView(sym.SObj('Storage', term=ResDict.val(s.data_reservoirs.val[f])[leaf]))._storage_x
+    return land(ResDict.dom(s.data_reservoirs.val[f])[leaf], exists_int(lambda i: land(0 <= i, i < R.n, R.arr[i] == x)))
+
+
+fn('TreeStorage.update', F, self_cls='TreeStorage', params={'x': InstT, 'y': TVal},
+   modifies=['_seen_samples', '_storage_x', 'performances', 'data_reservoirs'],
+   ensures={
+       'one_more_update': lambda c: c.new._seen_samples == c.old._seen_samples + 1,
+       # for every stored feature present in x: the complete newest observation is in the reservoir of the leaf it is
+       # routed to in that feature's tree as it is after learning from it
+       'newest_in_routed_leaf': lambda c: forall_key(lambda f: implies(
+           land(c.a.x.dom[f], in_names(c.old.feature_names, f)), has_newest(c.new, f, c.a.x.t))),
+       'x_unchanged': lambda c: c.a_new.x.t == c.a.x.t,
+       'config_unchanged': lambda c: c.new._leaf_reservoir_length == c.old._leaf_reservoir_length,
+   },
+   loops=[loop(inv={
+       'newest': lambda l: forall_key(lambda f: implies(land(l.done[f], in_names(l.self.feature_names, f)),
+                                                        has_newest(l.self, f, l.a.x.t))),
+       'frame': lambda l: land(l.v.x.t == l.a.x.t, l.self._seen_samples == l.entry_self._seen_samples),
+       'inv_per_feature': lambda l: CLASSES['TreeStorage'].invariant['per_feature'](l.self),
+       'inv_reservoirs': lambda l: CLASSES['TreeStorage'].invariant['reservoirs'](l.self),
+   })])
